@@ -183,9 +183,11 @@ func runC11Case(rt *rapid.T) {
 		}
 		do(model.Op{K: model.HBulkGet, Key: start, N: w})
 	}
+	lastInsAt, lastInsN := 0, 0
 	rt.Repeat(map[string]func(*rapid.T){
 		"step": func(rt *rapid.T) {
 			n++
+			checkAfter := false
 			c := uniform(rt, 100, "opClass")
 			var o model.Op
 			switch {
@@ -202,11 +204,19 @@ func runC11Case(rt *rapid.T) {
 					cnt = U - start
 				}
 				o = model.Op{K: model.HBulkSet, Key: start, N: cnt, Val: 1000000 + next*40000, D: model.NoExpiration}
+				lastInsAt, lastInsN = start, cnt
 				next++
 			case c < 16: // bulk delete crossing shrink thresholds
 				cnt := irange(rt, 50, 1000, "bulkN")
-				if uniform(rt, 2, "all") == 0 {
+				if w := uniform(rt, 3, "all"); w == 0 {
 					o = model.Op{K: model.HBulkDel, Key: 0, N: U}
+				} else if r := irange(rt, 100, 1200, "survivors"); w == 1 && lastInsN > r {
+					// everything but a few hundred keys of the last bulk insert: the table shrinks step by step WITH
+					// survivors in it (the counters are re-derived at every step), and they are read back at once
+					w0 := lastInsAt + (next*7919)%(lastInsN-r)
+					do(model.Op{K: model.HBulkDel, Key: 0, N: w0})
+					o = model.Op{K: model.HBulkDel, Key: w0 + r, N: U - (w0 + r)}
+					checkAfter = true
 				} else {
 					start := rapid.IntRange(0, U-1).Draw(rt, "bulkStart")
 					if !small {
@@ -247,6 +257,9 @@ func runC11Case(rt *rapid.T) {
 				}
 			}
 			do(o)
+			if checkAfter {
+				checkpoint()
+			}
 		},
 	})
 	checkpoint()
